@@ -87,7 +87,7 @@ package throttle
 //@   ensures [C06] old(throttler.recording) ==> throttler.recorder.starts == old(throttler.recorder.starts)
 //@   ensures [C06] old(throttler.recording) && throttler.recorder.writes == old(throttler.recorder.writes) ==> throttler.listener.events == old(throttler.listener.events) + 1 && throttler.recorder.stops == old(throttler.recorder.stops) + 1 && !throttler.recording && throttler.recorder.inFile >= throttler.minRecordingLength
 //@   ensures [C06] !old(throttler.recording) ==> (throttler.recorder.starts != old(throttler.recorder.starts)) == (throttler.bucket.availableTokens + (throttler.bucket.gTaken - old(throttler.bucket.gTaken)) >= throttler.minRecordingLength && old(throttler.recorder.startOK))
-//@   ensures [C06,C11,C15] !old(throttler.recording) && throttler.recorder.starts != old(throttler.recorder.starts) ==> throttler.recorder.bg == ref(old(throttler.backgroundFrame)) && throttler.recorder.thresh == old(throttler.tempThresh)
+//@   ensures [C06,C11,C15,C17] !old(throttler.recording) && throttler.recorder.starts != old(throttler.recorder.starts) ==> throttler.recorder.bg == ref(old(throttler.backgroundFrame)) && throttler.recorder.thresh == old(throttler.tempThresh)
 //@   ensures [C06] !old(throttler.recording) && throttler.recorder.starts == old(throttler.recorder.starts) ==> throttler.recorder.writes == old(throttler.recorder.writes) && throttler.listener.events == old(throttler.listener.events) && throttler.recorder.stops == old(throttler.recorder.stops) && !throttler.recording
 //@   ensures [C06] !old(throttler.recording) && throttler.recorder.starts != old(throttler.recorder.starts) && throttler.minRecordingLength >= 1 ==> throttler.recorder.writes == old(throttler.recorder.writes) + 1
 //@   ensures [C06] throttler.listener.events == old(throttler.listener.events) || throttler.listener.events == old(throttler.listener.events) + 1
